@@ -154,11 +154,23 @@ impl Stringify for Node {
     }
 }
 
+/// Whether an expression is a concatenation of static pieces and `{{ }}` pieces (as the parser builds it):
+/// any other `+` is an expression of its own and must stay one.
+fn is_piece(expr: &Expression) -> bool {
+    match expr {
+        Expression::ToStringWithoutUndefined { .. } | Expression::LitStr { .. } => true,
+        Expression::Plus { left, right, .. } => is_piece(left) && is_piece(right),
+        _ => false,
+    }
+}
+
 /// Whether the printed form of a piece of a text value starts with `{`.
 fn expr_starts_with_brace(expr: &Expression) -> bool {
     match expr {
         Expression::LitStr { value, .. } => value.starts_with('{'),
-        Expression::Plus { left, .. } => expr_starts_with_brace(left),
+        Expression::Plus { left, right, .. } if is_piece(left) && is_piece(right) => {
+            expr_starts_with_brace(left)
+        }
         _ => true,
     }
 }
@@ -777,18 +789,6 @@ impl Stringify for Value {
                             right,
                             location,
                         } => {
-                            // a concatenation of static pieces and `{{ }}` pieces (as the parser builds it):
-                            // any other `+` is an expression of its own and must stay one
-                            fn is_piece(expr: &Expression) -> bool {
-                                match expr {
-                                    Expression::ToStringWithoutUndefined { .. }
-                                    | Expression::LitStr { .. } => true,
-                                    Expression::Plus { left, right, .. } => {
-                                        is_piece(left) && is_piece(right)
-                                    }
-                                    _ => false,
-                                }
-                            }
                             let split = is_piece(left) && is_piece(right);
                             if split {
                                 split_expression(
